@@ -1,0 +1,54 @@
+//go:build verif
+
+// Contracts for the memory backend: the store is a map from the hex form of
+// the storage key to the value. Comments only; compiled only under `verif`.
+
+package mem
+
+//@ pred memOk(mdb) = mdb != nil && db.baseOk(mdb.DbBase) && mdb.store != nil
+//@ ghost defKey(mdb, key) = hexenc(chr(mdb.DbBase.baseDb.pfx) + db.skey(mdb.DbBase, key))
+
+//@ func (*memDb).toHexKey
+//@   serves C10, C11
+//@   requires memOk(mdb) && ctx != nil
+//@   premise !sameBacking(key, mdb.DbBase.baseDb.sid)
+//@   modifies mdb.DbBase.baseDb.sid[*], key[*]
+//@   ensures @err (result1 != nil) == (mdb.DbBase.baseDb.pfx == 0)
+//@   ensures @default result1 == nil ==> result0.Default == old(defKey(mdb, key)) && result0.Default != ""
+//@   ensures @notrans result1 == nil && (!db.translatable(mdb.DbBase.baseDb.pfx) || (mdb.DbBase.baseDb.lang == nil && !db.ctxHasLang(ctx))) ==> result0.Translation == ""
+//@   ensures[C10,C18] @dblang result1 == nil && db.translatable(mdb.DbBase.baseDb.pfx) && mdb.DbBase.baseDb.lang != nil
+//@     ==> result0.Translation == hexenc(chr(mdb.DbBase.baseDb.pfx) + old(db.skey(mdb.DbBase, key)) + db.langSuffix(mdb.DbBase.baseDb.lang)) && result0.Translation != ""
+//@   ensures[C10,C18] @ctxlang result1 == nil && db.translatable(mdb.DbBase.baseDb.pfx) && mdb.DbBase.baseDb.lang == nil && db.ctxHasLang(ctx)
+//@     ==> result0.Translation == hexenc(chr(mdb.DbBase.baseDb.pfx) + old(db.skey(mdb.DbBase, key)) + ite(db.ctxLangCode(ctx) != "", "_" + db.ctxLangCode(ctx), "")) && result0.Translation != ""
+
+// the key a Put writes / a Get reads first: the translation key when a language applies
+//@ ghost hasTrans(mdb, ctx) = db.translatable(mdb.DbBase.baseDb.pfx) && (mdb.DbBase.baseDb.lang != nil || db.ctxHasLang(ctx))
+//@ ghost transKey(mdb, ctx, key) = ite(mdb.DbBase.baseDb.lang != nil,
+//@     hexenc(chr(mdb.DbBase.baseDb.pfx) + db.skey(mdb.DbBase, key) + db.langSuffix(mdb.DbBase.baseDb.lang)),
+//@     hexenc(chr(mdb.DbBase.baseDb.pfx) + db.skey(mdb.DbBase, key) + ite(db.ctxLangCode(ctx) != "", "_" + db.ctxLangCode(ctx), "")))
+
+// Put: refused while the data type is locked (nothing changes); otherwise
+// exactly one entry of the store is written (C10).
+//@ func (*memDb).Put
+//@   serves C10
+//@   requires memOk(mdb) && ctx != nil
+//@   premise !sameBacking(key, mdb.DbBase.baseDb.sid)
+//@   modifies mdb.DbBase.baseDb.sid[*], key[*], mdb.store[transKey(mdb, ctx, key)], mdb.store[defKey(mdb, key)]
+//@   ensures[C10] @locked !old(forall(n, 0, 8, !(bit(mdb.DbBase.baseDb.pfx, n) && bit(mdb.DbBase.baseDb.lock, n)))) ==> result != nil
+//@     && all[string](k, in(k, mdb.store) == old(in(k, mdb.store)) && mdb.store[k] == old(mdb.store[k]))
+//@   ensures[C10] @notype mdb.DbBase.baseDb.pfx == 0 ==> result != nil
+//@   ensures[C10] @written result == nil ==> in(old(ite(hasTrans(mdb, ctx), transKey(mdb, ctx, key), defKey(mdb, key))), mdb.store)
+//@     && mdb.store[old(ite(hasTrans(mdb, ctx), transKey(mdb, ctx, key), defKey(mdb, key)))] == val
+//@   ensures[C10] @accepted old(forall(n, 0, 8, !(bit(mdb.DbBase.baseDb.pfx, n) && bit(mdb.DbBase.baseDb.lock, n)))) && mdb.DbBase.baseDb.pfx != 0 ==> result == nil
+
+// Get: the translation entry if present, else the default entry, else a not-found error (C10).
+//@ func (*memDb).Get
+//@   serves C10
+//@   requires memOk(mdb) && ctx != nil
+//@   premise !sameBacking(key, mdb.DbBase.baseDb.sid)
+//@   modifies mdb.DbBase.baseDb.sid[*], key[*]
+//@   ensures[C10] @trans mdb.DbBase.baseDb.pfx != 0 && old(hasTrans(mdb, ctx)) && in(old(transKey(mdb, ctx, key)), mdb.store) ==> result1 == nil && result0 == mdb.store[old(transKey(mdb, ctx, key))]
+//@   ensures[C10] @fallback mdb.DbBase.baseDb.pfx != 0 && !(old(hasTrans(mdb, ctx)) && in(old(transKey(mdb, ctx, key)), mdb.store)) && in(old(defKey(mdb, key)), mdb.store)
+//@     ==> result1 == nil && result0 == mdb.store[old(defKey(mdb, key))]
+//@   ensures[C10] @missing mdb.DbBase.baseDb.pfx != 0 && !(old(hasTrans(mdb, ctx)) && in(old(transKey(mdb, ctx, key)), mdb.store)) && !in(old(defKey(mdb, key)), mdb.store)
+//@     ==> typeis[db.ErrNotFound](result1)
